@@ -341,6 +341,28 @@ Definition tie_check (P : params) (b : backend) (hists : list (list (lockop * na
   obs_list_eqb (map obs_of (snd kt)) tr &&
   forallb (fun nv => optz_eqb (sh (fst kt) (fst nv)) (snd nv)) final.
 
+(* the same when some commands were lost with their connection (redis.ConnectionError): the operation raised, so it
+   gave no answer; a command that never reached the server is as if the operation had not been called (the harness
+   leaves it out of the history); a WRITE that the server applied before the reply was lost is the operation having
+   happened with its answer discarded: it stays in the history and [lost] lists the positions in the trace at which only
+   the client and the primitive are compared, not the response and the result. *)
+Definition obs_eqb_sent (a b : obs) : bool :=
+  match a, b with (c, p, _, _), (c', p', _, _) => Nat.eqb c c' && prim_eqb p p' end.
+
+Fixpoint obs_list_eqb_lost (i : nat) (lost : list nat) (a b : list obs) : bool :=
+  match a, b with
+  | [], [] => true
+  | x :: a', y :: b' =>
+      (if existsb (Nat.eqb i) lost then obs_eqb_sent x y else obs_eqb x y) && obs_list_eqb_lost (S i) lost a' b'
+  | _, _ => false
+  end.
+
+Definition tie_check_lost (P : params) (b : backend) (hists : list (list (lockop * name)))
+           (s : list cid) (tr : list obs) (final : list (name * option Z)) (lost : list nat) : bool :=
+  let kt := run P b (init hists) s in
+  obs_list_eqb_lost 0 lost (map obs_of (snd kt)) tr &&
+  forallb (fun nv => optz_eqb (sh (fst kt) (fst nv)) (snd nv)) final.
+
 (* ------------------------------------------------------------------ store value of a lock status *)
 Definition lockedv (P : params) (b : backend) : Z :=
   match b with BFile | BKeep => p_now P | BRedis | BRedisOld => p_L P | BDict => p_dL P end.
